@@ -50,6 +50,7 @@ static TRANS: [AtomicU64; NKIND * NKIND] = [const { AtomicU64::new(0) }; NKIND *
 static BYKIND: [AtomicU64; NKIND] = [const { AtomicU64::new(0) }; NKIND];
 static V_VERDICT_DISTURBED: AtomicU64 = AtomicU64::new(0);
 static VIA_DEFAULT: AtomicU64 = AtomicU64::new(0);
+static STALE_TOKENS: AtomicU64 = AtomicU64::new(0);
 
 /// an async function shared by all threads (kinds 7 and 8 fake its poll function)
 pub async fn shared_async(x: u32) -> u32 {
@@ -109,6 +110,12 @@ fn one_scope(tid: usize, kind: usize, epoch: u64, rng: &mut Rng, plain_probe: bo
     WAITERS.fetch_add(1, Ordering::SeqCst);
     // declared before the guard: dropped after the guard's destructor has returned
     let live;
+    // one acquisition in eight is made by a thread that has a pending unpark token (left over from whatever it did
+    // before): a guard may only be handed over by the holder letting go, not by a stale wake-up
+    if rng.chance(1, 8) {
+        std::thread::current().unpark();
+        STALE_TOKENS.fetch_add(1, Ordering::Relaxed);
+    }
     // every public way of obtaining an injector must take the guard: the constructor and the Default impl
     let via_default = rng.chance(1, 4);
     let mut guard = if kind < 4 || kind >= 6 {
@@ -440,6 +447,7 @@ pub fn run(ctx: &Ctx) {
             .b("final_handover_ok", final_ok)
             .b("tsan_build", tsan)
             .n("injectors_obtained_through_Default", VIA_DEFAULT.load(Ordering::SeqCst))
+            .n("acquisitions_by_a_thread_with_a_stale_unpark_token", STALE_TOKENS.load(Ordering::SeqCst))
             .n("wall_ms", t0.elapsed().as_millis())
             .arr_s("witness", &WITNESS.lock().unwrap().clone());
         let sig = if V_TWO_HOLDERS.load(Ordering::SeqCst) > 0 {
@@ -468,6 +476,49 @@ pub fn run(ctx: &Ctx) {
         if starved.load(Ordering::SeqCst) {
             out::summary(&J::new().n("configs", idx + 1));
             std::process::exit(75);
+        }
+    }
+    // ---- a healthy holder that simply takes long (thorough tier only: 40 s): the waiter gets its turn when the
+    // holder lets go, however long that takes - it is neither turned away nor does it give up
+    {
+        let idx = configs.len() as u64 + 3;
+        if ctx.thorough && ctx.mine(idx) && !tsan {
+            let class = "long-hold/waiter-queued-for-40s".to_string();
+            out::intent(idx, &class, &J::new().s("crash_sig", "long-hold"));
+            let holder = InjectorPP::prevent();
+            let (tx, rx) = std::sync::mpsc::channel::<Result<i32, String>>();
+            std::thread::spawn(move || {
+                let r = std::panic::catch_unwind(|| {
+                    let mut i = InjectorPP::new();
+                    i.when_called(injectorpp::func!(fn (shared)(i32) -> i32)).will_execute_raw(injectorpp::func!(fn (t9)(i32) -> i32));
+                    let v = shared(0);
+                    drop(i);
+                    v
+                });
+                let _ = tx.send(r.map_err(|p| crate::panicobs::payload_msg(&p)));
+            });
+            let early = rx.recv_timeout(Duration::from_secs(40));
+            let sig;
+            let mut d = J::new();
+            match early {
+                Ok(Ok(_)) => sig = "two-holders-at-once",
+                Ok(Err(m)) => {
+                    sig = "waiter-turned-away-while-the-holder-was-still-at-work";
+                    d = d.s("waiter_panic", &m);
+                }
+                Err(_) => {
+                    drop(holder);
+                    match rx.recv_timeout(Duration::from_secs(30)) {
+                        Ok(Ok(v)) if v == 0x109 => sig = "",
+                        Ok(other) => {
+                            sig = "waiter-did-not-get-a-working-guard-after-a-long-wait";
+                            d = d.s("waiter", &format!("{:?}", other));
+                        }
+                        Err(_) => sig = "waiter-not-served-within-30s-with-no-guard-alive",
+                    }
+                }
+            }
+            out::outcome(idx, &class, if sig.is_empty() { Verdict::Held } else { Verdict::Violated }, sig, &d);
         }
     }
     // ---- a second guard asked for by the thread that already holds one. In the library as it stands this
